@@ -703,8 +703,27 @@ func c03wake(c *an.Ctx) {
 				if !ok || an.FieldOf(fa) != pausedF {
 					return false
 				}
-				k, isC := an.ConstInt(call.Call.Args[1])
-				return isC && k == val
+				_ = val
+				return true
+			}
+		}
+		// the stored value, resolved through the constants chosen on the path (`v := 0; if pause { v = 1 }; Store(&paused, v)`)
+		storeVal := func(val int64) func(ssa.Instruction, *an.PathState) bool {
+			return func(in ssa.Instruction, st *an.PathState) bool {
+				call := in.(*ssa.Call)
+				if k, isC := an.ConstInt(call.Call.Args[1]); isC {
+					return k == val
+				}
+				if st == stepAny {
+					return true
+				}
+				if st != nil {
+					if kc, ok := st.ConstOf(call.Call.Args[1]); ok {
+						k, isC := an.ConstInt(kc)
+						return isC && k == val
+					}
+				}
+				return false
 			}
 		}
 		var wake step
@@ -745,10 +764,10 @@ func c03wake(c *an.Ctx) {
 			val  bool
 			want int64
 		}{{true, 1}, {false, 0}} {
-			ok, missing, w := seqOnAllPaths(fn, paramConst(fn, 1, pv.val), an.IsReturn, []step{{sprintf("store paused=%d", pv.want), storeOf(pv.want)}, wake})
+			ok, missing, w := seqOnAllPaths(fn, paramConst(fn, 1, pv.val), an.IsReturn, []step{{sprintf("store paused=%d", pv.want), func(in ssa.Instruction) bool { return storeOf(pv.want)(in) && storeVal(pv.want)(in, stepState) }}, wake})
 			// and the opposite value is never stored on this path family
-			q := &an.PathQ{Fn: fn, StartEntry: true, Consts: paramConst(fn, 1, pv.val),
-				Sink: func(in ssa.Instruction, _ *an.PathState) bool { return storeOf(1 - pv.want)(in) }}
+			q := &an.PathQ{Fn: fn, StartEntry: true, Consts: paramConst(fn, 1, pv.val), AllConsts: true,
+				Sink: func(in ssa.Instruction, st *an.PathState) bool { return storeOf(0)(in) && !storeVal(pv.want)(in, st) }}
 			_, wrong := q.Find()
 			construct := sprintf("doPause(%v): flag then wake", pv.val)
 			if ok && !wrong {
